@@ -331,7 +331,10 @@ def r_helpers(ctx, model):
             ctx.violation(key, w, expected="the interpolator is constructed with the arguments its installed signature requires",
                           found=f"{e.exc_name}" + (f": {cls}() lacks {missing}" if missing else ""),
                           explanation=f"method {method!r} cannot be constructed: {cls}(x, y) lacks required argument(s) {missing}; "
-                                      f"a schema-valid configuration aborts" if missing else f"method {method!r} raises {e.exc_name} for every input",
+                                      f"a schema-valid configuration aborts" if missing else (
+                                          f"method {method!r} takes an element of a result that is empty for part of the valid inputs (numpy.linalg.lstsq returns no residuals unless the "
+                                          f"system is over-determined and of full rank: order + 1 >= number of volumes, or a nearly singular ln V Vandermonde matrix): IndexError there"
+                                          if e.exc_name == "EmptySelection" else f"method {method!r} raises {e.exc_name} for every input"),
                           instance=f"{method}: constructible")
             ctx.begin_rule("R11.1-3", RULE_TEXT["R11.1-3"])
             continue
